@@ -51,13 +51,19 @@ func Harness_C02_C03_limits() {
 			deadline[t] = now + int64(2*time.Second)
 		}
 	}
-	// optionally a second (child) span for trace A, which exceeds SpanLimit 1
+	// optionally a second span for trace A - a child, or (if A has no root yet) its root -, which
+	// exceeds SpanLimit 1: the trace is then due at once even when the span is the root
 	if zz.NondetBool("extraSpanForA") {
 		now += verifDur("dt")
 		c.setNow(now)
-		zz.Assert(c.i.AddSpan(c.span("A", false, 1)) == nil, "span admitted")
+		extraRoot := zz.And(!root[0], zz.NondetBool("extraSpanIsRoot"))
+		zz.Assert(c.i.AddSpan(c.span("A", extraRoot, 1)) == nil, "span admitted")
 		c.barrier()
 		nspans[0] = 2
+		if extraRoot {
+			root[0] = true
+			deadline[0] = zz.IteInt64(now+int64(2*time.Second) < deadline[0], now+int64(2*time.Second), deadline[0])
+		}
 		if spanLimit > 0 {
 			deadline[0] = zz.IteInt64(now < deadline[0], now, deadline[0])
 		}
